@@ -176,6 +176,7 @@ def run(idx: ProgramIndex, rep: Report, tier: str):
     rep.rule("C05-4", "no in-place aliasing hazard in kernel forward code and the distance helpers (storage/version domain)")
     rep.rule("C05-3", "LCMKernel = sum over all member multitask kernels")
     piecewise_polynomial(idx, rep)
+    derivative_chain(idx, rep)
     K = "gpytorch.kernels.kernel"
     for cname, op, opname in (("AdditiveKernel", ast.Add, "+"), ("ProductKernel", ast.Mult, "*")):
         C = idx.cls(K, cname)
@@ -382,3 +383,100 @@ def piecewise_polynomial(idx: ProgramIndex, rep: Report):
         rep.add("C05-7", "%s:_get_cov[q=%d]" % (fi.module.name, q), "%s:%d" % (fi.module.relpath, found[q].lineno), ok,
                 "equals the reference polynomial" if ok else "the code's polynomial minus the reference (R&W 4.21) is %s, not 0: the kernel is not the documented covariance function" % diff[:120], {})
     rep.floor("C05-7", "piecewise polynomial orders", n, 4)
+
+
+# ---- C05-8 ---------------------------------------------------------------------------------------------------------
+def derivative_chain(idx: ProgramIndex, rep: Report):
+    """PolynomialKernelGrad assembles its blocks from u^p, p u^(p-1) and p (p-1) u^(p-2) with u = x1.x2 + offset: value block, gradient blocks
+    (times x) and curvature part of the Hessian block.  Whatever u is, the three factors must be successive derivatives IN THE SAME u: same
+    base expression, exponent p - k, coefficient p (p-1) ... (p-k+1) - decided with polynomials in the symbol p, per branch (diag / full)."""
+    from ..domains.symshape import Poly
+    rep.rule("C05-8", "PolynomialKernelGrad: the factors of the value, gradient and Hessian blocks are u^p, p u^(p-1), p (p-1) u^(p-2) in one and the same inner variable u (polynomial identity in p)")
+    C = idx.find_class("PolynomialKernelGrad")
+    fw = idx.method(C, "forward", own=True)
+    P = Poly.sym("p")
+
+    def poly_in_p(e: ast.AST):
+        if isinstance(e, ast.Constant) and isinstance(e.value, int):
+            return Poly.const(e.value)
+        if src(e) == "self.power":
+            return P
+        if isinstance(e, ast.BinOp) and isinstance(e.op, (ast.Add, ast.Sub, ast.Mult)):
+            a, b = poly_in_p(e.left), poly_in_p(e.right)
+            if a is None or b is None:
+                return None
+            return a + b if isinstance(e.op, ast.Add) else (a - b if isinstance(e.op, ast.Sub) else a * b)
+        if isinstance(e, ast.BinOp) and isinstance(e.op, ast.Pow) and isinstance(e.right, ast.Constant) and isinstance(e.right.value, int) and 0 <= e.right.value <= 4:
+            a = poly_in_p(e.left)
+            if a is None:
+                return None
+            out = Poly.const(1)
+            for _ in range(e.right.value):
+                out = out * a
+            return out
+        return None
+
+    def factors(e: ast.AST) -> List[ast.AST]:
+        if isinstance(e, ast.BinOp) and isinstance(e.op, ast.Mult):
+            return factors(e.left) + factors(e.right)
+        return [e]
+    branches = []
+    for st in ast.walk(fw.node):
+        if isinstance(st, ast.If) and src(st.test) == "diag":
+            branches = [("diag", st.body), ("full", st.orelse)]
+    if not branches:
+        raise AnalysisError("C05-8: PolynomialKernelGrad.forward no longer branches on diag (anchor vanished)")
+    n = 0
+    for label, body in branches:
+        assigns = {}
+        for st in body:
+            for a in ast.walk(st):
+                if isinstance(a, ast.Assign) and isinstance(a.targets[0], ast.Name):
+                    assigns.setdefault(a.targets[0].id, a.value)
+        found = {}  # order k -> (coef Poly, base text)
+        for name, v in assigns.items():
+            fs = factors(v)
+            pw = [f for f in fs if isinstance(f, ast.Call) and isinstance(f.func, ast.Attribute) and f.func.attr == "pow" and len(f.args) == 1]
+            if len(pw) != 1:
+                continue
+            ex = poly_in_p(pw[0].args[0])
+            coef = Poly.const(1)
+            okc = True
+            for f in fs:
+                if f is pw[0]:
+                    continue
+                c = poly_in_p(f)
+                if c is None:
+                    okc = False
+                    break
+                coef = coef * c
+            if ex is None or not okc:
+                continue
+            k = None
+            for kk in range(0, 4):
+                if ex == P - Poly.const(kk):
+                    k = kk
+            if k is None:
+                continue
+            base = pw[0].func.value
+            base_txt = norm(assigns[base.id]) if isinstance(base, ast.Name) and base.id in assigns else norm(base)
+            base_name = base.id if isinstance(base, ast.Name) else norm(base)
+            found.setdefault(k, []).append((name, coef, base_name, base_txt))
+        n += 1
+        probs = []
+        for k in (0, 1, 2):
+            if k not in found:
+                probs.append("no factor u^(p-%d) found" % k)
+        want = Poly.const(1)
+        bases = set()
+        for k in (0, 1, 2):
+            for name, coef, bname, btxt in found.get(k, []):
+                if coef != want:
+                    probs.append("%s: the coefficient of u^(p-%d) is %s, expected %s" % (name, k, coef.show(), want.show()))
+                bases.add((bname, btxt))
+            want = want * (P - Poly.const(k))
+        if len({b for _n, b in bases}) > 1 or len({n_ for n_, _b in bases}) > 1:
+            probs.append("the factors are powers of different inner variables: %s - a derivative block built from another u than the value block is not the derivative of the value block" % "; ".join("%s = %s" % (a_, b_[:40]) for a_, b_ in sorted(bases)))
+        rep.add("C05-8", "%s:PolynomialKernelGrad.forward[%s branch]" % (C.module.name, label), fw.where, not probs,
+                "u^p, p u^(p-1), (p^2 - p) u^(p-2) in the same u = %s" % (sorted(bases)[0][1][:50] if bases else "?") if not probs else "; ".join(probs), {})
+    rep.floor("C05-8", "branches of PolynomialKernelGrad.forward", n, 2)
